@@ -60,9 +60,12 @@ def plan(tier, seed):
         specs.append(dict(kind='sampled', sub=k, n=4 + k % 2,
                           rounds=6000 if tier == 'thorough' else 300,
                           dynamic=(k % 2 == 1), hashseed=k))
+    # instances beyond truth tables (12-70 variables), see vf/big.py
+    from vf import big
+    specs.extend(big.specs(tier, seed, 'C11'))
     meta = dict(
         rule=RULE,
-        require=['copies', 'source_unchanged_checks', 'target_checks',
+        require=['big_histories', 'copies', 'source_unchanged_checks', 'target_checks',
                  'copy_vars_checks', 'targets_with_dynamic_reordering',
                  'copy_vars_refusals'] +
                 ['entry_' + e for e in ENTRY],
@@ -403,5 +406,8 @@ def sampled(ctx, spec):
 
 
 def run_shard(ctx, spec):
+    if spec['kind'] == 'big':
+        from vf import big
+        return ctx.guard('big', big.run, ctx, spec, case=spec)
     fn = dict(all3=all3, sampled=sampled)[spec['kind']]
     ctx.guard(spec['kind'], fn, ctx, spec, case=spec)
